@@ -620,6 +620,7 @@ class C12(flatcheck.FlatCheck):
         ('nested-model', (16, 110), (48, 500)),
         ('nested-model-small', (8, 110), (24, 500)),
         ('nested-model-parallel', (8, 110), (24, 500)),
+        ('nested-model-async', (8, 110), (16, 500)),
         ('nested-twin', (16, 14), (32, 110)),
         ('nested-twin-parallel', (8, 14), (16, 110)),
     )
@@ -650,7 +651,7 @@ class C12(flatcheck.FlatCheck):
         # the nested model broke without a property failure in the regular run: the oracles of the nested streams,
         # fresh seeds, more budget
         payloads = [(seed + 7919, i, 60, name) for name in ('nested-twin', 'nested-twin-parallel') for i in range(16)]
-        payloads += [(seed + 7919, i, 250, name) for name in ('nested-model', 'nested-model-parallel') for i in range(16)]
+        payloads += [(seed + 7919, i, 250, name) for name in ('nested-model', 'nested-model-parallel', 'nested-model-async') for i in range(16)]
         for part in runner.parallel(nestedmay.chunk, payloads):
             found += [f for f in part.failures if f.kind == 'monitor']
         for f in found[:1]:
